@@ -25,6 +25,10 @@ pub mod ipose {
     /// fault injection: make the n-th (1-based, counted from `arm`) call of request `FAIL_REQ` fail with EIO
     pub static FAIL_REQ: AtomicU32 = AtomicU32::new(u32::MAX);
     pub static FAIL_AT: AtomicI64 = AtomicI64::new(-1);
+    /// (C16, additive) when switched on by `enable_regs()`: the complete register file of every successful
+    /// GETREGS / SETREGS, tagged with the index its event has in `LOG`; emptied by `take_with_regs()` and `take()`.
+    pub static REGS_ENABLED: AtomicBool = AtomicBool::new(false);
+    pub static REGLOG: Mutex<Vec<(usize, libc::user_regs_struct)>> = Mutex::new(Vec::new());
 
     type PtraceFn = unsafe extern "C" fn(libc::c_uint, libc::pid_t, *mut libc::c_void, *mut libc::c_void) -> libc::c_long;
     type WaitFn = unsafe extern "C" fn(libc::pid_t, *mut libc::c_int, libc::c_int) -> libc::pid_t;
@@ -59,7 +63,12 @@ pub mod ipose {
                     // (C09) the event message (new thread id of a clone event) travels in the `rip` field
                     *(data as *const libc::c_ulong) as u64
                 } else { 0 };
-                LOG.lock().unwrap().push(Ev::Ptrace { req, pid, addr: addr as u64, data: data as u64, ret: ret as i64, errno, rip });
+                let mut log = LOG.lock().unwrap();
+                if REGS_ENABLED.load(Ordering::Relaxed) && (req == libc::PTRACE_GETREGS || req == libc::PTRACE_SETREGS) && ret == 0 && !data.is_null() {
+                    REGLOG.lock().unwrap().push((log.len(), *(data as *const libc::user_regs_struct)));
+                }
+                log.push(Ev::Ptrace { req, pid, addr: addr as u64, data: data as u64, ret: ret as i64, errno, rip });
+                drop(log);
                 *libc::__errno_location() = errno;
             }
             ret
@@ -103,7 +112,14 @@ pub mod ipose {
     }
 
     pub fn enable() { ENABLED.store(true, Ordering::Relaxed); }
-    pub fn take() -> Vec<Ev> { std::mem::take(&mut *LOG.lock().unwrap()) }
+    pub fn take() -> Vec<Ev> { REGLOG.lock().unwrap().clear(); std::mem::take(&mut *LOG.lock().unwrap()) }
+    pub fn enable_regs() { REGS_ENABLED.store(true, Ordering::Relaxed); }
+    /// events since the last take, plus the register files of the GETREGS/SETREGS among them (index into the events)
+    pub fn take_with_regs() -> (Vec<Ev>, Vec<(usize, libc::user_regs_struct)>) {
+        let mut log = LOG.lock().unwrap();
+        let regs = std::mem::take(&mut *REGLOG.lock().unwrap());
+        (std::mem::take(&mut *log), regs)
+    }
     pub fn arm_fault(req: u32, nth: i64) { FAIL_REQ.store(req, Ordering::Relaxed); FAIL_AT.store(nth, Ordering::Relaxed); }
     pub fn disarm_fault() { FAIL_REQ.store(u32::MAX, Ordering::Relaxed); FAIL_AT.store(-1, Ordering::Relaxed); }
     pub fn fault_fired() -> bool { FAIL_REQ.load(Ordering::Relaxed) != u32::MAX && FAIL_AT.load(Ordering::Relaxed) <= 0 }
